@@ -93,6 +93,12 @@ func (w *runWorld) ctor(key string) (keyed.Routine, int) {
 		inc = &incarnation{id: w.nInc, key: key}
 		w.incOf[key] = inc
 	}
+	if c.S.PlanP(70) {
+		// a constructor may return no routine for a key: nothing runs for it, but
+		// whatever ran before it for the same key must still be waited for
+		c.S.Count("probe:nil-routine")
+		return nil, w.nextTok
+	}
 	return func(ctx context.Context) error {
 		in := &rinst{n: len(w.insts) + 1, inc: inc, ctx: ctx, tag: core.Tag(ctx), entered: c.Tick()}
 		w.insts = append(w.insts, in)
